@@ -23,6 +23,10 @@ enum Op {
     WUpd(u8, u8), // name index, value
     WRm(u8),
     WRemoveAll,
+    /// turn name "c" into a CNAME (a node "special", versioned separately from the RRsets)
+    WCname,
+    /// commit(bump_soa_serial = true): the SOA serial of the new version is the old one + 1
+    WCommitBump,
     WCommit,
     WCommitKeepNode,
     /// commit(), then open() again on the same WritableZone: the next batch of a
@@ -101,7 +105,8 @@ fn enabled(m: &Model, op: Op, thorough: bool) -> bool {
         Op::WCommitFault => m.working.is_some() && m.diff_mode,
         Op::WCommitReopen => m.working.is_some() && !m.diff_mode,
         Op::W2Try => m.working.is_some(),
-        Op::WUpd(..) | Op::WRm(_) | Op::WRemoveAll | Op::WCommit | Op::WDrop => m.working.is_some(),
+        Op::WUpd(..) | Op::WRm(_) | Op::WRemoveAll | Op::WCommit | Op::WDrop | Op::WCname => m.working.is_some(),
+        Op::WCommitBump => m.working.is_some() && !m.diff_mode,
         Op::WCommitKeepNode => thorough && m.working.is_some() && !m.stale_node && !m.diff_mode, // with a diff this is WCommitFault
         Op::WStaleUpd(..) => m.stale_node,
         Op::RAcq(i) => m.readers[i as usize].is_none(),
@@ -137,6 +142,40 @@ fn step(m: &mut Model, r: &mut Real, op: Op, out: &mut Vec<Viol>) {
             }
             m.diff_mode = false;
         }
+        Op::WCname => {
+            let name = rel("c");
+            let (_, node) = r.writer.as_ref().unwrap();
+            let apex = node.as_ref().unwrap();
+            let old = m.working.clone().unwrap();
+            let mut new = old.clone();
+            new.names.insert(name.clone(), [Rd::Cname].into_iter().collect());
+            r.rt.block_on(write_name(apex.as_ref(), &new, Some(&old), &name));
+            m.working = Some(new);
+            for i in 1..=name.len() {
+                m.nodes.insert(name[..i].to_vec());
+            }
+        }
+        Op::WUpd(n, v) if m.working.as_ref().unwrap().names.get(&rel(NAMES[n as usize])).map(|s| s.contains(&Rd::Cname)).unwrap_or(false) => {
+            // the name is a CNAME in the working version: back to a regular node, then the data
+            let name = rel(NAMES[n as usize]);
+            let (_, node) = r.writer.as_ref().unwrap();
+            let apex = node.as_ref().unwrap();
+            let old = m.working.clone().unwrap();
+            let mut new = old.clone();
+            new.names.insert(name.clone(), [Rd::A(v)].into_iter().collect());
+            r.rt.block_on(write_name(apex.as_ref(), &new, Some(&old), &name));
+            m.working = Some(new);
+        }
+        Op::WRm(n) if m.working.as_ref().unwrap().names.get(&rel(NAMES[n as usize])).map(|s| s.contains(&Rd::Cname)).unwrap_or(false) => {
+            let name = rel(NAMES[n as usize]);
+            let (_, node) = r.writer.as_ref().unwrap();
+            let apex = node.as_ref().unwrap();
+            let old = m.working.clone().unwrap();
+            let mut new = old.clone();
+            new.names.remove(&name);
+            r.rt.block_on(write_name(apex.as_ref(), &new, Some(&old), &name));
+            m.working = Some(new);
+        }
         Op::WUpd(n, v) => {
             let name = rel(NAMES[n as usize]);
             let (_, node) = r.writer.as_ref().unwrap();
@@ -144,6 +183,11 @@ fn step(m: &mut Model, r: &mut Real, op: Op, out: &mut Vec<Viol>) {
             r.rt.block_on(async {
                 let nd = node_for(apex.as_ref(), &name).await.unwrap();
                 nd.update_rrset(rrset_of(&[Rd::A(v)])).await.unwrap();
+                // the writer reads its own uncommitted write back
+                match nd.get_rrset(Rtype::A).await {
+                    Ok(Some(rs)) if rs.data().len() == 1 => {}
+                    other => out.push(Viol { sig: "C09|writer|get_rrset-does-not-return-its-own-write".into(), what: format!("after update_rrset the writer's get_rrset(A) gave {:?}", other.map(|o| o.map(|r| r.data().len()))) }),
+                }
             });
             let w = m.working.as_mut().unwrap();
             let set = w.names.entry(name.clone()).or_default();
@@ -173,6 +217,25 @@ fn step(m: &mut Model, r: &mut Real, op: Op, out: &mut Vec<Viol>) {
             let (_, node) = r.writer.as_ref().unwrap();
             r.rt.block_on(node.as_ref().unwrap().remove_all()).unwrap();
             m.working.as_mut().unwrap().names.clear();
+        }
+        Op::WCommitBump => {
+            let (mut w, node) = r.writer.take().unwrap();
+            drop(node);
+            r.rt.block_on(w.commit(true)).unwrap();
+            drop(w);
+            let mut c = m.working.take().unwrap();
+            let soa_of = |c: &Content| c.names.get(&vec![]).and_then(|s| s.iter().find_map(|r| if let Rd::Soa(x) = r { Some(*x) } else { None }));
+            // documented: if the published version has a SOA and the new version has none or the
+            // same one, the new version gets that SOA with the serial increased by one
+            if let Some(old) = soa_of(m.committed.last().unwrap()) {
+                if soa_of(&c).is_none() || soa_of(&c) == Some(old) {
+                    let apex = c.names.entry(vec![]).or_default();
+                    apex.retain(|r| !matches!(r, Rd::Soa(_)));
+                    apex.insert(Rd::Soa(old.wrapping_add(1)));
+                }
+            }
+            m.committed.push(c);
+            m.diff_mode = false;
         }
         Op::WCommit | Op::WCommitKeepNode => {
             let (mut w, node) = r.writer.take().unwrap();
@@ -247,6 +310,11 @@ fn step(m: &mut Model, r: &mut Real, op: Op, out: &mut Vec<Viol>) {
                     what: format!("reader acquired at version {k} walks {} records, committed content has {}", obs.walk.len(), want.len()),
                 });
             }
+            // the CNAME state of a name is a node "special" with its own version history
+            let want_cname = !c.rrset(&rel("c"), Rtype::CNAME).is_empty();
+            if (obs.answers[2].kind() == Kind::Cname) != want_cname {
+                out.push(Viol { sig: format!("C09|new-reader|cname-state-differs-from-committed-version|committed-is-cname={want_cname}"), what: format!("reader at version {k}: c/A answered as {:?} but the committed version has CNAME at c: {want_cname}", obs.answers[2].kind()) });
+            }
             for (qi, q) in QNAMES.iter().enumerate() {
                 let own = c.rrset(&rel(q), Rtype::A);
                 let got: BTreeSet<Vec<u8>> = obs.answers[qi].answer.iter().filter(|x| x.1 == 1).map(|x| x.2.clone()).collect();
@@ -310,6 +378,8 @@ fn parse_op(t: &str) -> Op {
         "WUpd" => Op::WUpd(nums[0], nums[1]),
         "WRm" => Op::WRm(nums[0]),
         "WRemoveAll" => Op::WRemoveAll,
+        "WCname" => Op::WCname,
+        "WCommitBump" => Op::WCommitBump,
         "WCommit" => Op::WCommit,
         "WCommitKeepNode" => Op::WCommitKeepNode,
         "WCommitFault" => Op::WCommitFault,
@@ -362,11 +432,11 @@ fn main() {
     let ctx = Ctx::new("C09", "model_checking");
     let stats = Stats::new();
     let thorough = !ctx.quick();
-    let mut ops: Vec<Op> = vec![Op::WOpen, Op::WOpenDiff, Op::WUpd(0, 2), Op::WUpd(1, 3), Op::WUpd(2, 4), Op::WRm(0), Op::WRemoveAll, Op::WCommit, Op::WCommitFault, Op::WCommitReopen, Op::W2Try, Op::WDrop, Op::RAcq(0), Op::RObs(0), Op::RRel(0), Op::RAcq(1), Op::RObs(1)];
+    let mut ops: Vec<Op> = vec![Op::WOpen, Op::WOpenDiff, Op::WUpd(0, 2), Op::WUpd(1, 3), Op::WUpd(2, 4), Op::WRm(0), Op::WRemoveAll, Op::WCname, Op::WCommitBump, Op::WCommit, Op::WCommitFault, Op::WCommitReopen, Op::W2Try, Op::WDrop, Op::RAcq(0), Op::RObs(0), Op::RRel(0), Op::RAcq(1), Op::RObs(1)];
     if thorough {
         ops.extend([Op::WUpd(0, 5), Op::WRm(1), Op::WCommitKeepNode, Op::WStaleUpd(0, 7), Op::WStaleUpd(2, 8), Op::RRel(1)]);
     }
-    let depth = if thorough { 9 } else { 8 };
+    let depth = if thorough { 8 } else { 7 };
 
     if let Some(p) = &ctx.replay {
         // replay one stored history on a fresh real zone, without the explorer
@@ -461,7 +531,7 @@ fn main() {
             "traces_validated_against_impl": transitions,
             "evaluations": transitions,
             "distinct_nontrivial": stats.distinct_count(),
-            "rule": "BFS over all interleavings (operation granularity) of one writer at a time (open with and without diff collection/update/remove/remove_all/commit/commit-then-reopen (multi-batch)/a second writer's attempt to get the zone while the first is open/commit that unwinds at its documented panic point (diff collected + node handle alive)/drop; thorough: also commit-keeping-the-node and writes through that stale node) and two readers (acquire/observe/release) to the depth bound, every history replayed on a fresh real zone; states deduplicated on (model state, sorted Debug rendering of the real zone incl. version vectors)",
+            "rule": "BFS over all interleavings (operation granularity) of one writer at a time (open with and without diff collection/update (with read-back through the writer)/remove/remove_all/turning a name into a CNAME and back/commit with serial bump/commit/commit-then-reopen (multi-batch)/a second writer's attempt to get the zone while the first is open/commit that unwinds at its documented panic point (diff collected + node handle alive)/drop; thorough: also commit-keeping-the-node and writes through that stale node) and two readers (acquire/observe/release) to the depth bound, every history replayed on a fresh real zone; states deduplicated on (model state, sorted Debug rendering of the real zone incl. version vectors)",
             "exhaustive": true,
             "depth": depth,
             "alphabet": ops.iter().map(|o| format!("{:?}", o)).collect::<Vec<_>>(),
